@@ -42,7 +42,7 @@ func init() {
 		CaseTimeout: 120 * time.Second,
 		ChildSetup:  c19Setup,
 		Require: func(tier string) map[string]int64 {
-			return map[string]int64{"values_written_and_decoded": 1000, "values_read_and_compared": 1500, "kept_results_reverified": 2000, "invalid_documents_rejected": 100, "pool_events": 3000}
+			return map[string]int64{"values_written_and_decoded": 700, "values_read_and_compared": 1500, "kept_results_reverified": 2000, "invalid_documents_rejected": 100, "pool_events": 3000}
 		},
 		Assumptions: []string{
 			"JSON equivalence = equality of the trees obtained with encoding/json (UseNumber) from both encodings",
